@@ -11,6 +11,8 @@ import (
 	"verif/lib"
 )
 
+const knownSmallOrderIdentity = "C16-small-order-identity"
+
 type want int
 
 const (
@@ -31,6 +33,7 @@ var mitmScenarios = []string{
 	"mitm-own-key", "mitm-own-key", "mitm-own-key-split-auth", "mitm-relay-peer-sig", "mitm-replay-old-sig",
 	"mitm-third-party-key-own-sig", "mitm-garbage-sig", "mitm-sig-other-session", "mitm-short-key", "mitm-short-sig",
 	"mitm-one-sided", "mitm-same-eph-relay-ciphertext", "mitm-peer-key-peer-sig-other-challenge",
+	"mitm-small-order-identity", "mitm-small-order-identity",
 }
 
 // endView is everything the oracle knows about one honest end: its secrets and exactly the bytes it was given.
@@ -333,6 +336,15 @@ func TestHandshakeMITM(t *testing.T) {
 			att.authIn = advAuth(side, pubOf(adv)[:rapid.IntRange(0, 31).Draw(t, "klen")], refSign(rawKey(adv), advSess[side].challenge[:]))
 			oth.authIn = ownAuth(1 - side)
 			att.want, oth.want = wantFail, wantAdv
+		case "mitm-small-order-identity":
+			// an identity nobody holds a private key for: a small-order ed25519 point, with a signature made of public
+			// constants (R small order, S = 0) chosen - by public computation only - so that it verifies
+			id := rapid.SampledFrom(smallOrderEd).Draw(t, "identity")
+			sig, verifies := degenerateSig(id[:], advSess[side].challenge[:])
+			detail = fmt.Sprintf("%x/%v", id[:2], verifies)
+			att.authIn = advAuth(side, id[:], sig)
+			oth.authIn = ownAuth(1 - side)
+			att.want, oth.want = wantFail, wantAdv
 		case "mitm-short-sig":
 			att.authIn = advAuth(side, pubOf(adv), refSign(rawKey(adv), advSess[side].challenge[:])[:rapid.IntRange(0, 63).Draw(t, "slen")])
 			oth.authIn = ownAuth(1 - side)
@@ -382,6 +394,16 @@ func TestHandshakeMITM(t *testing.T) {
 				continue
 			}
 			got := r.sc.RemotePubKey().Bytes()
+			if isSmallOrderEd(got) {
+				// finding C16-small-order-identity: an identity without a private key was "authenticated"
+				if lib.IsKnown(knownSmallOrderIdentity) {
+					lib.ObservedKnown(knownSmallOrderIdentity)
+					lib.ExcludedByKnown(knownSmallOrderIdentity)
+					outcome[i] = "keyless-identity"
+					continue
+				}
+				t.Fatalf("[%s] %s: handshake succeeded with RemotePubKey %x, a small-order ed25519 point: nobody holds a private key for it, the signature presented is a public constant (no proof of possession)", scen, name, got)
+			}
 			if v.want == wantFail {
 				t.Fatalf("[%s] %s: handshake succeeded (RemotePubKey %x) but had to fail", scen, name, got[:6])
 			}
@@ -503,6 +525,23 @@ func TestLowOrderList(t *testing.T) {
 	k[0] = 9
 	if refIsLowOrder(refPub(k)) || refIsLowOrder(k) {
 		t.Fatalf("ordinary key classified as low order")
+	}
+	// small-order ed25519 identities: for each of them a constant (R small order, S = 0) verifies for some of 64 messages
+	accepted := 0
+	for i, p := range smallOrderEd {
+		hits := 0
+		for m := 0; m < 64; m++ {
+			if _, ok := degenerateSig(p[:], []byte{byte(m), 0x16}); ok {
+				hits++
+			}
+		}
+		if hits > 0 {
+			accepted++
+		}
+		lib.Class("TestLowOrderList", fmt.Sprintf("ed-small-order-%02d-%x:verifies-%d/64", i, p[:1], hits))
+	}
+	if accepted < 8 {
+		t.Fatalf("only %d of the listed small-order ed25519 encodings ever verify a degenerate signature; the list is wrong", accepted)
 	}
 	lib.Case("TestLowOrderList", lib.FP(len(lowOrderPoints)), true, "points")
 }
